@@ -14,7 +14,14 @@ def make_recorder(bl, prune_desc):
         if isinstance(v, str): return "'" + v + "'"
         if v is None: return 'None'
         return str(v)
-    class Rec(base):
+    # visitor classes related by inheritance, used one after the other: every instance must get the callbacks of ITS class
+    # (the intermediate class prunes at words and overrides a few callbacks; the plain base class is traversed too)
+    class Mid(base):
+        def visitword(self, n, word): return False
+        def visitcommand(self, n, parts): pass
+        def visitlist(self, n, parts): pass
+    class Rec(Mid):
+        warm = (base, Mid)
         def __init__(self): self.trace = []; self.entered = []
         def visitnode(self, n): self.trace.append('E' + d(n)); self.entered.append(id(n))
         def visitnodeend(self, n): self.trace.append('L' + d(n))
@@ -66,7 +73,9 @@ def run(ctx):
             Rec, d = make_recorder(bl, None)
             r = Rec()
             try:
-                for t in trees: r.visit(t)
+                for t in trees:
+                    for w in Rec.warm: w().visit(t)
+                    r.visit(t)
             except Exception as e:
                 meta.append((s, opts, '-', 'EXC %s: %s' % (type(e).__name__, e))); lines.append('visit\t-\t-\t' + o); continue
             # "reaches every node once": by object identity, over every attribute (a node hidden in `name`/`body`/... of another counts)
